@@ -115,15 +115,38 @@ func genMulti(c *Case, r *simrt.Rand, tier string) {
 		c.Drivers = append(c.Drivers, prog)
 		c.Flags["childOnlyWriter"] = true
 	}
+	if c.Prop == "C16" && r.Chance(0.12) {
+		// a writer whose Merge operations the operator refuses: every merger
+		// cycle that meets them fails.  Calls must still return and Close must
+		// still be final.  (Readers only use point reads of the markers then.)
+		var prog []Op
+		nb := 2 + r.Intn(5)
+		for i := 0; i < nb; i++ {
+			prog = append(prog, Op{Kind: "childBatch", B: &BatchSpec{Ops: []KV{
+				{Op: "merge", K: []byte(fmt.Sprintf("m/%d", i%2)), V: []byte("x")},
+				{Op: "set", K: []byte(fmt.Sprintf("m/z%d", i)), V: []byte("y")}}}})
+		}
+		c.Drivers = append(c.Drivers, prog)
+		c.Flags["failingMerge"] = true
+		for i, d := range c.Drivers {
+			for j, op := range d {
+				if op.Kind == "readSnap" || op.Kind == "storeRead" {
+					c.Drivers[i][j] = Op{Kind: "getMarkers"}
+				}
+			}
+		}
+		c.Flags["wantCloser"] = r.Chance(0.7)
+	}
 	c.Flags["nWriters"] = false
 	c.VerifyAtomic = false
 	c.Opts.MergeOp = false
 	// the number of writers is recoverable from the programs (writers issue batches)
 	if c.Prop == "C16" || (c.Prop == "C17" && r.Chance(0.3)) {
 		// a closer: Close at an arbitrary point, then the post-Close contract
-		if r.Chance(0.6) {
+		if r.Chance(0.6) || c.Flags["wantCloser"] {
 			c.Drivers = append(c.Drivers, []Op{{Kind: "pause", N: 1 + r.Intn(300)}, {Kind: "closeColl"}, {Kind: "postClose"}})
 		}
+		delete(c.Flags, "wantCloser")
 		if c.Opts.Backing == "mapll" && r.Chance(0.6) {
 			nf := 1 + r.Intn(2)
 			for i := 0; i < nf; i++ {
@@ -224,7 +247,7 @@ func (e *Exec) runMulti() {
 		panic(abortRun{})
 	}
 	e.checkMultiHistory()
-	if !md.closed && e.collOpen {
+	if !md.closed && e.collOpen && !e.flag("failingMerge") {
 		// final read: everything every writer executed is visible
 		e.finalMultiRead()
 	}
@@ -250,6 +273,7 @@ func (e *Exec) livenessMonitor() {
 	simrt.Fair(true)
 	const bound = 60000
 	start := simrt.Steps()
+	errs0 := len(e.events.errors)
 	idleRounds := 0
 	for md.pending > 0 && simrt.Steps()-start < bound {
 		before := simrt.Steps()
@@ -277,6 +301,13 @@ func (e *Exec) livenessMonitor() {
 		}
 	}
 	simrt.Fair(false)
+	if md.pending > 0 && len(e.events.errors) > errs0 {
+		// persistence rounds (or merger cycles) kept failing during the suffix,
+		// e.g. because the application's merge operator refuses: the premise
+		// "the lower level makes progress" does not hold, no verdict
+		e.probe("liveness-premise-failed")
+		return
+	}
 	if md.pending > 0 && e.viol == nil {
 		e.viol = &Violation{Prop: "C16", Class: "liveness", OpIdx: e.opIdx, Detail: e.detail(map[string]string{"symptom": "liveness"}),
 			Msg: fmt.Sprintf("%d driver call(s) still pending %d fair scheduling points after faults stopped:\n%s", md.pending, simrt.Steps()-start, simrt.DumpTasks())}
